@@ -46,8 +46,9 @@ Definition out_sound (args : list tval) (o : oval) : Prop :=
             /\ (forall ax, fl = Some ax -> exists s, In s (nth i (v_src o) []) /\ arg_axes args s = Some ax))
   | TSingle fl g =>
       wf_val (val_of o)
-      /\ (exists i s, In s (nth i (v_src o) []) /\ entry_grid args s = Some g)
-      /\ (forall ax, fl = Some ax -> exists i s, In s (nth i (v_src o) []) /\ arg_axes args s = Some ax)
+      /\ (0 < nent (v_shape o) -> exists i s, In s (nth i (v_src o) []) /\ entry_grid args s = Some g)
+      /\ (forall ax, fl = Some ax -> 0 < nent (v_shape o) ->
+          exists i s, In s (nth i (v_src o) []) /\ arg_axes args s = Some ax)
   end.
 Definition res_sound (args : list tval) (r : ores) : Prop :=
   match r with
@@ -76,3 +77,26 @@ Definition ginv (p : pval) : Prop :=
   | TPlain => True
   end.
 End Spec.
+
+(* ---- programs with ghost item provenance ---- *)
+Section ProgSpec.
+Variable gshape : gid -> shape.
+Variable gaxes : gid -> axes.
+
+Definition presolve (cur : pval) (inputs : list pval) (r : oref) : pval :=
+  match r with RCur => cur | RIn k => nth k inputs (mkT [] TPlain, []) end.
+Definition pstep (cur : pval) (inputs : list pval) (st : step) : option pval :=
+  let args := map (presolve cur inputs) (s_args st) in
+  match pick_out (run_op gshape gaxes (s_op st) (map fst args)) (s_pick st) with
+  | Some o => Some (val_of o, prov_of args (v_src o))
+  | None => None
+  end.
+Fixpoint prun (cur : pval) (inputs : list pval) (steps : list step) : option pval :=
+  match steps with
+  | [] => Some cur
+  | st :: r => match pstep cur inputs st with
+               | Some v => prun v inputs r
+               | None => None
+               end
+  end.
+End ProgSpec.
